@@ -109,7 +109,31 @@ def _emptyrep_corpus():
     return out
 
 
-CORPUS = _alias_corpus() + _numeq_corpus() + _setexpr_corpus() + _emptyrep_corpus() + [  # hand-written trees for shapes the generator reaches rarely; each is one program
+def _loophead_corpus():
+    """`continue` goes back to the FIRST instruction of the loop condition, whatever the condition starts with (a literal, a keyword, a
+    parenthesis, a unary sign, a name)"""
+    I = lambda k: ("i", k)
+    V = lambda n: ("var", n)
+    out = []
+    conds = [("bin", "comp.gt", I(6), V("i1")), ("bin", "comp.lt", ("neg", I(6)), ("neg", V("i1"))), ("bin", "comp.lt", V("i1"), I(6)),
+             ("bin", "comp.ne", ("bin", "add", I(0), V("i1")), I(6)), ("tern", ("bin", "comp.lt", V("i1"), I(6)), I(1), I(0))]
+    for c in conds:
+        out.append(("seq", [("asg", "i1", I(0)), ("asg", "x1", I(0)),
+                            ("while", c, ("seq", [("asg", "i1", ("bin", "add", V("i1"), I(1))),
+                                                  ("if", ("bin", "comp.eq", ("bin", "mod", V("i1"), I(2)), I(0)), ("seq", [("cont",)]), None),
+                                                  ("asg", "x1", ("bin", "add", V("x1"), V("i1")))])),
+                            ("arr", [V("x1"), V("i1")])]))
+    for c in (I(1), ("i", 7), ("bin", "add", I(1), I(0))):
+        out.append(("seq", [("asg", "i1", I(0)), ("asg", "x1", I(0)),
+                            ("while", c, ("seq", [("asg", "i1", ("bin", "add", V("i1"), I(1))),
+                                                  ("if", ("bin", "comp.gt", V("i1"), I(5)), ("seq", [("brk",)]), None),
+                                                  ("if", ("bin", "comp.lt", V("i1"), I(3)), ("seq", [("cont",)]), None),
+                                                  ("asg", "x1", ("bin", "add", V("x1"), I(10)))])),
+                            ("arr", [V("x1"), V("i1")])]))
+    return out
+
+
+CORPUS = _alias_corpus() + _numeq_corpus() + _setexpr_corpus() + _emptyrep_corpus() + _loophead_corpus() + [  # hand-written trees for shapes the generator reaches rarely; each is one program
     ("seq", [("asg", "x1", ("i", 5)), ("aset", "x1", "k", ("i", 1)), ]),
     ("seq", [("i", 7), ("asg", "dc1", ("dict", [])), ("aset", "dc1", "k", ("i", 3))]),
     ("seq", [("asg", "ar1", ("arr", [("i", 1), ("i", 2)])), ("asg", "ar2", ("var", "ar1")), ("iset", ("var", "ar1"), ("i", 0), ("i", 9)), ("var", "ar2")]),
